@@ -25,7 +25,8 @@ ASSUMPTIONS = [
 def plan(tier):
     base = {"case_time_limit": 240,
             "required_classes": ["complex-state", "mpdm", "bra!=ket", "duplicate-operators", "shared-prefix", "shared-suffix",
-                                 "complex-operator", "coeff!=1", "unnormalised", "occupations-interleaved", "rdm", "entropy"],
+                                 "complex-operator", "coeff!=1", "unnormalised", "occupations-interleaved", "rdm", "entropy",
+                                 "long-chain", "output-ordering-permuted"],
             "required_counters": {"oracle": 2000, "cached_environments_used": 100}}
     if tier == "quick":
         base.update({"ncases": 256, "min_nontrivial": 100})
@@ -162,6 +163,12 @@ def run_case(ctx):
         gm = gen.random_basis_list(rng, nsite=(2, 4), max_dim=48, min_dim=4, qn_mode=gm.desc["qn_mode"])
     model = states.model_of(gm)
     n = len(gm.basis)
+    if n >= 3 and rng.random() < 0.3:
+        # the documented `output_ordering`: the order of e_dofs / v_dofs (and of the occupations) differs from the chain order
+        from renormalizer.model import Model
+        perm = [int(i) for i in rng.permutation(n)]
+        model = Model(list(gm.basis), [], output_ordering=[gm.basis[i] for i in perm])
+        ctx.cls("output-ordering-permuted")
     qntot = states.pick_sector(rng, gm)
     nstates = int(rng.integers(1, 4))
     sts = [make_state(ctx, gm, model, qntot, as_mpdm) for _ in range(nstates)]
